@@ -164,12 +164,11 @@ namespace rkcommon {
     template <typename KEY, typename VALUE>
     inline void FlatMap<KEY, VALUE>::erase(const KEY &key)
     {
-      auto itr = std::stable_partition(
-          values.begin(), values.end(), [&](const item_t &i) {
-            return i.first != key;
-          });
-
-      values.resize(std::distance(values.begin(), itr));
+      // NOTE: 'key' may refer to an element of 'values' (e.g. erase(kv.first)), so
+      //       it must not be read again once elements have been moved
+      auto itr = lookup(key);
+      if (itr != values.end())
+        values.erase(itr);
     }
 
     template <typename KEY, typename VALUE>
